@@ -86,9 +86,25 @@ def binop(ex, st, op, a, b, node=None):
                 (b.val if isinstance(b, Const) and b.kind == "setunion" else [b])
         yield st, Const("setunion", parts)
         return
+    if isinstance(a, Const) and a.kind == "libdt":
+        a = eng.lib_value(st, a)
+    if isinstance(b, Const) and b.kind == "libdt":
+        b = eng.lib_value(st, b)
     if not (isinstance(a, V) and isinstance(b, V)):
         raise _unsupported(f"binop on host values {a} {b}")
     ta, tb = a.ty, b.ty
+    if (isinstance(op, (ast.Add, ast.Sub)) and ta in ("py", "obj") and tb in ("py", "obj")
+            and getattr(getattr(ex.fr, "contract", None), "lib_arith", False)):
+        # datetime - datetime, datetime +/- timedelta (contracts that declare lib_arith): assumed contracts of the library
+        from . import externals
+        ba, bb = V("py", box(a)), V("py", box(b))
+        both = z3.And(Py.is_obj(ba.t), Py.is_obj(bb.t))
+        s_obj, s_other = ex.split(st, both)
+        if s_obj is not None:
+            yield from externals.call(ex, s_obj, "datetime.__sub__" if isinstance(op, ast.Sub) else "datetime.__add__", [ba, bb], {}, node)
+        if s_other is None:
+            return
+        st = s_other
     num = ("int", "bool")
     # ---- 64-bit vectors (contracts that declare bv64 locals / specs typed bv64)
     if "bv64" in (ta, tb) and {ta, tb} <= {"bv64", "int", "bool", "py"}:
